@@ -105,7 +105,28 @@ FIELDS:
 ===END===
 '''
 
-SCHEMA_NAMES = ["META", "SKILL", "TEST_HOLOGRAPHIC", "DEBATE_TRANSCRIPT", "GEN_A", "GEN_B", "GEN_C", "GEN_D", "GEN_E", "NOPE"]
+# GEN_F: the constraint kinds the other generated schemas do not use (dates and times, lengths, constants): their verdicts must not
+# depend on the process environment (time zone names, locale) any more than on the hash seed
+GEN_SCHEMAS["gen_f.oct.md"] = '''===GEN_F===
+META:
+  TYPE::SCHEMA
+  VERSION::"1.0"
+POLICY:
+  VERSION::"1.0"
+  UNKNOWN_FIELDS::WARN
+FIELDS:
+  WHEN::["2024-01-01T00:00:00Z"∧REQ∧ISO8601→§INDEXER]
+  DAY::["2024-01-01"∧OPT∧DATE]
+  SHORT::["abc"∧OPT∧MAX_LENGTH[5]]
+  LONGISH::["abcdef"∧OPT∧MIN_LENGTH[4]]
+  FIXED::["on"∧OPT∧CONST["on"]]
+===END===
+'''
+ISO_VALUES = ['"2024-03-01T10:30:00Z"', '"2024-03-01T10:30:00 UTC"', '"2024-03-01T10:30:00 IST"', '"2024-03-01T10:30:00 NST"', '"2024-03-01T10:30:00 NDT"',
+              '"2024-03-01T10:30:00 CET"', '"2024-03-01T10:30:00 GMT"', '"2024-03-01T10:30:00+05:30"', '"2024-03-01 10:30"', '"01/03/2024"',
+              '"2024-03-01T10:30:00 EST"', '"2024-W09-5"', '"20240301T103000Z"', "yesterday"]
+
+SCHEMA_NAMES = ["META", "SKILL", "TEST_HOLOGRAPHIC", "DEBATE_TRANSCRIPT", "GEN_A", "GEN_B", "GEN_C", "GEN_D", "GEN_E", "GEN_F", "NOPE"]
 PACKAGED_ONLY = {"META", "SKILL", "TEST_HOLOGRAPHIC", "DEBATE_TRANSCRIPT", "NOPE"}
 
 
@@ -157,6 +178,10 @@ def doc_reporting(t: Tape, marker: str) -> str:
         for nm_ in ("GEN_D", "GEN_E"):
             lines += [nm_ + t.pick(BT + ["[→§AUDIT_TRAIL]", "[→§VAULT]"], "rep.btDE") + ":", '  ENTRY::"42 EUR"', "  NOTE::" + t.pick(ATOMS, "rep.dn"), "  SAFE::1",
                       "  ODD::" + t.pick(ATOMS, "rep.do"), "  PLAIN::p"]
+    if t.choose(3, "rep.genf") == 0:
+        lines += ["GEN_F:", "  WHEN::" + t.pick(ISO_VALUES, "rep.fw"), "  DAY::" + t.pick(['"2024-03-01"', '"2024-3-1"', '"01.03.2024"', '"2024-02-30"', "today"], "rep.fd"),
+                  "  SHORT::" + t.pick(["abc", '"abcdef"', '"äöüßé"', '"äöüßéx"'], "rep.fs"), "  LONGISH::" + t.pick(["abcd", "abc", '"äöü"', '"äöüß"'], "rep.fl"),
+                  "  FIXED::" + t.pick(["on", "ON", "off", '"on"'], "rep.ff")]
     if t.choose(3, "rep.lit") == 0:
         # literal zone with characters that have several Unicode spellings (composed/decomposed, ligature, full-width)
         lines += ["CODE::", "  ```python", "  print('x  y')", "  if x: pass", "  s = 'caf\u00e9 \u00f1 \u212b \ufb01 \uff21'", "  ```"]
@@ -313,7 +338,7 @@ def uni_battery() -> dict:
 # that whether such a place is compared under another hash seed never depends on what the seeded pool happens to contain.
 
 
-def order_battery() -> list:
+def order_battery(include_env_only: bool = True) -> list:
     out = []
 
     def add(api, text, schema, **kw):
@@ -344,19 +369,28 @@ def order_battery() -> list:
     add("tool.validate", rep2, "GEN_E", args={})
     add("py.validate", rep2.replace("GEN_E:", "GEN_E[→§NOPE_T]:"), "GEN_D")
     add("py.validate", rep2.replace("GEN_D:", "GEN_D[→§NOPE_T]:"), "GEN_E")
+    # every date-time spelling, incl. zone ABBREVIATIONS (what they mean depends on the process's TZ), under the ISO8601 constraint
+    rep3 = ('===DOC===\nMETA:\n  TYPE::TEST\n  VERSION::"1.0"\n' + "".join(
+        f'GEN_F:\n  WHEN::{v_}\n  DAY::"2024-02-30"\n  SHORT::"äöüßéx"\n  LONGISH::"äöü"\n  FIXED::ON\n' for v_ in ISO_VALUES[:1]) + "===END===\n")
+    add("tool.validate", rep3, "GEN_F", args={})
     add("tool.eject", rep, "GEN_A", args={"mode": "executive", "format": "json"})
     add("tool.eject", rep, "GEN_B", args={"mode": "developer", "format": "markdown"})
     sectioned = ('===DOC===\nMETA:\n  TYPE::TEST\n  VERSION::"1.0"\n' + "".join(f"§{nm}::S{i}\n  V{i}::{i}\n" for i, nm in enumerate(
         ["ZETA", "CONTEXT", "ALPHA", "RULES", "GLOSSARY", "NOTES", "LIMITS", "DEFINITIONS"])) + "§1::N1\n  W::1\n§10::N10\n  W::10\n§2::N2\n  W::2\n===END===\n")
     add("tool.write", meta_d.replace("STATUS::D", "STATUS::DRAFT"), "META", mode="content", initial=sectioned, args={})
     add("tool.write", None, "META", mode="changes", initial=sectioned, args={"changes": {"§CONTEXT": {"$op": "DELETE"}, "§ZETA": {"$op": "DELETE"}, "ADDED": [3, 1, 2]}})
+    if include_env_only:
+        # served by every fresh interpreter of the configuration grid (TZ, locale, ...), not part of the ordered-pair battery
+        for i_, v_ in enumerate(ISO_VALUES[1:]):
+            out.append({"id": 930000 + i_, "api": "py.validate", "doc_kind": "battery", "text": rep3.replace(ISO_VALUES[0], v_), "schema": "GEN_F",
+                        "env_only": True})
     return out
 
 
 def state_battery() -> list:
     """order_battery() plus the calls that BUILD something with names or counters (grammars): all ordered pairs (a, b) of this
     list are served by one process each -- a first, then b -- and b must answer as in a pristine process."""
-    out = order_battery()
+    out = order_battery(include_env_only=False)
 
     def add(api, text, schema, **kw):
         out.append({"id": 920000 + len(out), "api": api, "doc_kind": "battery", "text": text, "schema": schema, **kw})
@@ -406,7 +440,7 @@ def gen_call(t: Tape, idx: int, corpus: list, heavy: bool = False) -> dict:
     else:
         text = t.pick(["", "\n\n", "plain prose without structure", "===X===\n" + "[" * 40, "A::" + "[" * 300 + "]" * 300,
                        "===DOC===\nA::😀\nB::‮ rtl\n===END===\n", "K::1\n" * 400], "call.garbage")
-    schema = t.weighted([("META", 3), ("GEN_A", 5), ("GEN_B", 3), ("GEN_C", 3), ("GEN_D", 2), ("GEN_E", 2), ("SKILL", 1), ("TEST_HOLOGRAPHIC", 1), ("DEBATE_TRANSCRIPT", 1),
+    schema = t.weighted([("META", 3), ("GEN_A", 5), ("GEN_B", 3), ("GEN_C", 3), ("GEN_D", 2), ("GEN_E", 2), ("GEN_F", 2), ("SKILL", 1), ("TEST_HOLOGRAPHIC", 1), ("DEBATE_TRANSCRIPT", 1),
                          ("NOPE", 1)], "call.schema")
     api = t.weighted([("tool.validate", 8), ("tool.write", 5), ("tool.eject", 3), ("tool.compile_grammar", 2), ("tool.validate_file", 1),
                       ("py.tokenize", 1), ("py.parse", 1), ("py.parse_with_warnings", 1), ("py.emit", 2), ("py.validate", 2),
